@@ -63,6 +63,7 @@ class SqliteSem:
             evalfn = None
         if st["order"]:
             self.constructs.add("sql:ORDER BY")
+            self.notes.append("ORDER BY: order among ties is unspecified in SQL")
             keys, has_random = self.order_keys(st["order"], out, evalfn)
             out, extra = K.rel_sort(out, keys, stable=False)
             self.side += extra
